@@ -79,6 +79,7 @@ var classTable = []classEntry{
 	ce("arity", `Function requires (at least )?\d+ arguments?.*, however \d+ (was|were) supplied`),
 	ce("nullArgument", `Cannot use a value of result type `),
 	ce("closureAcrossThreads", `Sending closures across threads`),
+	ce("spawnNonFunction", `Cannot spawn '.*': this is a function value`),
 	ce("notCallable", `Type '[^']*' cannot be called`),
 	ce("indexType", `A value of type '[^']*' cannot be indexed by '`),
 	ce("unknownField", `Object does not contain a field with name '`),
